@@ -239,7 +239,12 @@ class C02(PipelineCheck):
                                       'detail': '%s program %d rejected by javac (%d errors); '
                                                 'first: Main.java:%d: %s | %s' % (
                                                     kind, j, len(errs), ln, msg[:160],
-                                                    srcline.strip()[:120])})
+                                                    srcline.strip()[:120]),
+                                      # the emitted text itself, so that the finding stays
+                                      # inspectable after later commits changed the tape
+                                      'artifact': {'javac': ['%d: %s' % (e_[0], e_[1][:200])
+                                                             for e_ in errs[:5]],
+                                                   'source': open(path).read()[:150000]}})
         finally:
             shutil.rmtree(root, ignore_errors=True)
         seen = set()
